@@ -268,7 +268,8 @@ def run(ctx, prop=None):
             "case": small, "original_case_calls": n, "cases_failing_with_any_relevant_kind": total_by_case,
             "repro": "bin/check replay <this file>"})
         ctx.violations.append({"match": "gated:" + sig, "replay": rp,
-                               "what": "%s: gated.Filter and its model disagree / an oracle fails: %s at call %d of a %d-call history (%d cases affected in total)" % (prop, sig, ms[0][0], _ncalls(small), total_by_case)})
+                               "what": "%s: gated.Filter and its model disagree / an oracle fails: %s at call %d of a %d-call history%s (%d cases affected in total)" % (
+                                   prop, sig, ms[0][0], n, "" if small is c else ", shrunk to %d calls in the replay" % _ncalls(small), total_by_case)})
     part["rule"] = ("histories of Process/FlushAll/Close calls and clock advances run on the real gated.Filter (NowFunc = harness clock, harness payload "
                     "records ComposeFrom arguments, harness Sender records payloads); after every call the harness observes the result, the ComposeFrom "
                     "arguments, the payloads sent and the VerifGated snapshot; the Coq model is run on the same history by vm_compute. bfs = every history to "
